@@ -102,4 +102,16 @@ def scan (cur : Bytes) : List Bytes → Bool × Bytes × List Bytes
   | [] => (false, cur, [])
   | l :: rest => (true, l, rest)
 
+/-- An `io.Writer` that accepts `room` more bytes and then fails (what the properties quantify over:
+"the destination starts failing after any number of bytes"); `out` = the bytes accepted so far. -/
+structure Wr where
+  room : Nat
+  out : Bytes
+  deriving Repr, DecidableEq
+
+/-- one `Write(p)` call (what one `fmt.Fprintf` amounts to): all of `p`, or as much as fits and an error -/
+def wrWrite (w : Wr) (p : Bytes) : Wr × GoErr :=
+  if p.length ≤ w.room then (⟨w.room - p.length, w.out ++ p⟩, .nil)
+  else (⟨0, w.out ++ p.take w.room⟩, .other)
+
 end Bio.GoRt
